@@ -4,6 +4,7 @@
 //! for concrete failing inputs on the real code.
 mod dl;
 mod gen;
+mod kit;
 mod model;
 mod props;
 mod report;
